@@ -207,6 +207,7 @@ class UnitRun:
         self.map_loops = 0
         self.prange_loops = 0
         self.interps: list[Interp] = []
+        self.extra_results: list = []  # obligations discharged by another back end (lean)
 
     def interp(self) -> Interp:
         it = Interp(Ctx())
@@ -248,6 +249,29 @@ class UnitRun:
     def assume_note(self, text):
         if text not in self.assumptions:
             self.assumptions.append(text)
+
+    def lean_file(self, path, timeout=1500):
+        """lemmas that need induction / finite sums are stated and proved in Lean 4 + Mathlib; the file is checked by
+        `lean` on every run and every `theorem` in it is recorded as one obligation (back end lean4+mathlib).  A file
+        that does not check leaves its obligations UNDECIDED (it says nothing about the code)."""
+        import re
+
+        src = open(path).read()
+        names = re.findall(r"^theorem\s+([A-Za-z_][A-Za-z0-9_']*)", src, re.M)
+        sorry = bool(re.search(r"\b(sorry|admit)\b|^\s*axiom\b", re.sub(r"/-.*?-/", "", src, flags=re.S), re.M))
+        t0 = time.time()
+        try:
+            p = subprocess.run(["lean", path], capture_output=True, text=True, timeout=timeout)
+            ok, out = p.returncode == 0 and not sorry, (p.stdout + p.stderr)[-1500:]
+        except Exception as e:  # lean missing / timeout
+            ok, out = False, f"{type(e).__name__}: {e}"
+        dt = time.time() - t0
+        for n in names:
+            self.extra_results.append({"name": f"lean.{n}", "kind": "prove", "status": "proved" if ok else "unknown", "solver": "lean4+mathlib",
+                                       "time_s": round(dt / max(1, len(names)), 3), "model": None, "info": {"file": os.path.relpath(path, VERIF)},
+                                       **({} if ok else {"reason": ("file contains sorry/admit/axiom; " if sorry else "") + out})})
+        if not names:
+            self.extra_results.append({"name": "lean.no_theorems_found", "kind": "prove", "status": "unknown", "solver": "lean4+mathlib", "time_s": dt, "model": None, "info": {}, "reason": "no theorem in file"})
 
 
 def _run_unit(args):
@@ -293,6 +317,10 @@ def _run_unit(args):
                 rec["reason"] = r["reason"]
             if r.get("weak_theory"):
                 rec["weak_theory"] = True
+            out["results"].append(rec)
+        for rec in ur.extra_results:
+            rec = dict(rec)
+            rec["name"] = f"{unit_name}/{rec['name']}"
             out["results"].append(rec)
         out["functions"] = ur.functions
         out["dropped"] = sorted(ur.dropped)
